@@ -257,6 +257,9 @@ type callRes struct {
 	durKnown bool
 	durable  bool
 	why      string
+	// the signer file was no signer record already when the request was made (only a tear fault earlier in
+	// the history leaves such a file): refusing to start after this step is the safe answer, not a finding
+	tornBefore bool
 }
 
 // call runs the signing request once on the real signer.
@@ -267,7 +270,7 @@ func (s *sim) call(req int, armed string) *callRes {
 	atomic.AddInt64(&s.c.stepsRun, 1)
 	r := reqs[req]
 	w := s.w
-	cr := &callRes{req: req, armed: armed, rel: s.relation(r)}
+	cr := &callRes{req: req, armed: armed, rel: s.relation(r), tornBefore: s.mainTorn()}
 	var call func() error
 	var sigOf func() crypto.Signature
 	if r.Kind == 0 {
@@ -413,8 +416,12 @@ func (s *sim) finish(cr *callRes, st step) (o obs) {
 			after = "idle-kill"
 		}
 		if v := s.restart(after); v != nil {
-			o.terminal = append(o.terminal, *v)
-			outcome += "/restart-failed"
+			if cr.tornBefore {
+				outcome += "/refuses-to-start(signer file was torn before)"
+			} else {
+				o.terminal = append(o.terminal, *v)
+				outcome += "/restart-failed"
+			}
 			s.stopped = true
 		} else {
 			outcome += "/restarted"
@@ -534,11 +541,36 @@ func (s *sim) judge(ri int, o obs) []viol {
 	return vs
 }
 
-// tear damages the signer file itself (leftovers untouched).
+// mainTorn: is the signer file on disk no signer record (judged by its content alone)?
+func (s *sim) mainTorn() bool {
+	base := filepath.Base(s.w.path)
+	var b []byte
+	if s.dirView != nil {
+		c, ok := s.dirView[base]
+		if !ok {
+			return false
+		}
+		b = c
+	} else {
+		c, err := ioutil.ReadFile(s.w.path)
+		if err != nil {
+			return false // missing: not torn (creation faults have their own oracle)
+		}
+		b = c
+	}
+	return !s.c.fileInfo(s.w.probe, map[string][]byte{base: b}, base).ok
+}
+
+// tear damages the signer file itself (leftovers untouched).  A file that is
+// no signer record already stays as it is (damaging the damage again could
+// undo it: two flips).
 func (s *sim) tear(pattern string) {
 	b, err := ioutil.ReadFile(s.w.path)
 	if err != nil {
 		core.Fatal("tear: %v", err)
+	}
+	if s.mainTorn() {
+		return
 	}
 	if err := ioutil.WriteFile(s.w.path, torn(b, pattern), 0600); err != nil {
 		core.Fatal("tear: %v", err)
@@ -610,8 +642,9 @@ func (c *ctx) loadFile(path string) *types.PrivValidator {
 // sign-bytes and signature of the signer; the same for the signer file; and
 // for each leftover file (.bak, .new) whether it exists and how its content
 // relates to the signer file (equal / older watermark / newer watermark / same
-// watermark other bytes / unloadable); any other file by name and content
-// hash.  Argument for equal futures: the next behaviour of the signer is a
+// watermark other bytes / unloadable) — when the signer file is no signer
+// record (torn), only that fact, .bak by its own content and .new relative to
+// .bak; any other file by name and content hash.  Argument for equal futures: the next behaviour of the signer is a
 // function of its fields, and of the files only through what a load reads; the
 // leftovers are overwritten before they are used.  The claim is checked, not
 // assumed: a second history reaching the same key is expanded too and every
@@ -629,7 +662,9 @@ func (s *sim) filesKey() string {
 	case main.missing:
 		b.WriteString(" | file=missing")
 	case !main.ok:
-		b.WriteString(" | file=unloadable-" + main.hash)
+		// not a signer record: which bytes exactly it holds is not part of the key (a torn file of any
+		// pattern is the same state); the merge oracle checks that claim like every other one
+		b.WriteString(" | file=unloadable")
 	default:
 		b.WriteString(" | file=" + main.tuple)
 	}
@@ -638,6 +673,14 @@ func (s *sim) filesKey() string {
 		names = append(names, n)
 	}
 	sort.Strings(names)
+	// leftovers are described relative to the signer file; when that is no signer record, .bak is described
+	// by its own content and .new relative to .bak
+	ref, refName, refIs := main, "file", ""
+	if !main.ok {
+		if bk := s.c.fileInfo(s.w.probe, dir, base+".bak"); bk.ok {
+			ref, refName, refIs = bk, "bak", base+".bak"
+		}
+	}
 	for _, n := range names {
 		switch n {
 		case base:
@@ -646,14 +689,14 @@ func (s *sim) filesKey() string {
 			rel := "unloadable"
 			switch {
 			case !d.ok:
-			case !main.ok:
+			case !ref.ok || n == refIs:
 				rel = d.tuple
-			case d.tuple == main.tuple:
-				rel = "equal-to-file"
-			case d.hrs < main.hrs:
-				rel = "older-than-file"
-			case d.hrs > main.hrs:
-				rel = "newer-than-file"
+			case d.tuple == ref.tuple:
+				rel = "equal-to-" + refName
+			case d.hrs < ref.hrs:
+				rel = "older-than-" + refName
+			case d.hrs > ref.hrs:
+				rel = "newer-than-" + refName
 			default:
 				rel = "same-watermark-other-content"
 			}
